@@ -16,7 +16,10 @@ import (
 	"testing/synctest"
 	"time"
 
+	"github.com/libp2p/go-libp2p/core/peer"
 	rcmgr "github.com/libp2p/go-libp2p/p2p/host/resource-manager"
+
+	"verif/harness/rig/memnet"
 
 	"verif/harness/rig/run"
 )
@@ -142,6 +145,37 @@ func runFaultCase(t *testing.T, fc faultCase, record bool) (res *histResult, tra
 			res.classes["step_reserve_"+strings.SplitN(w.reserve(c2), ":", 2)[0]]++ // a new reservation by p2
 			plan.arm(false)
 			w.lenient = false
+		case "disconnect-at-tag":
+			// The reserving peer's only connection closes at the very moment the relay tags it for its new
+			// reservation (the connection manager's TagPeer is the boundary). The tagging goroutine is held
+			// for 2 ms of REAL time there while the close and its Disconnected notification run on another
+			// goroutine (in a relay that tags inside the critical section that stores the reservation, the
+			// notification simply queues behind it). Whatever the RESERVE answer: the peer is gone, so
+			// afterwards it holds no reservation and NO TAG ("tags return to their previous values").
+			c2 := w.addConn(2, 3)
+			var once sync.Once
+			hook := func(p peer.ID, tag string) {
+				if p != peers[2].id || tag != "relay-reservation" {
+					return
+				}
+				once.Do(func() {
+					res.classes["disconnect_placed_at_reservation_tag"]++
+					go w.net.closeConn(c2.fc, w.cm)
+					<-memnet.RealAfter(2 * time.Millisecond)
+				})
+			}
+			w.cm.onTag.Store(&hook)
+			out := w.doReserve(c2)
+			synctest.Wait()
+			w.cm.onTag.Store(nil)
+			res.classes["disconnect_at_tag_reserve_answered_"+fmt.Sprint(out.Got)]++
+			if !c2.fc.IsClosed() { // the relay never tagged (request refused?): plain disconnect
+				w.net.closeConn(c2.fc, w.cm)
+				synctest.Wait()
+			}
+			w.m.tick(time.Now())
+			w.m.disconnect(c2)
+			w.logf("RESERVE p2 with its connection closing at the relay's TagPeer -> answered %v", out.Got)
 		case "stop":
 			// the destination misbehaves; the source waits, half-closes or vanishes
 			cls, ci := w.connectReq(cS, 1, fc.Req, stopScript{Kind: fc.Script, Delay: fc.Delay})
@@ -215,6 +249,9 @@ func faults(t *testing.T, r *run.R) {
 		if k < len(tr) && strings.HasSuffix(tr[k], ".Read") {
 			cases = append(cases, faultCase{Kind: "reserve-step", At: k, Mode: "eof", Limited: true})
 		}
+	}
+	for _, lim := range []bool{true, false} {
+		cases = append(cases, faultCase{Kind: "disconnect-at-tag", Limited: lim})
 	}
 	// 2. destination misbehaviour x source behaviour x delay
 	scripts := append([]string{"truncSilent", "hugevarint"}, failingStopScripts...)
@@ -316,6 +353,7 @@ func faults(t *testing.T, r *run.R) {
 		r.Require("fault_fired_"+k, 1)
 	}
 	r.Require("fault_fired", 60)
+	r.Require("fault_disconnect_placed_at_reservation_tag", 2)
 	r.Require("fault_stop_refused", 40)
 	r.Require("fault_hop_refused", 10)
 	r.Require("fault_rcmgr_real_refusal", 15)
